@@ -5,6 +5,7 @@ import concurrent.futures as cf
 import json, os, re, shutil, subprocess, sys, tempfile
 
 HERE = os.path.dirname(os.path.dirname(os.path.abspath(__file__)))
+BASE = "/repo/pyoda_time"  # replaced in main() by a snapshot of the package, so that commits to /repo made while the matrix runs do not leak into it
 SNAP = HERE  # replaced in main() by a snapshot of the checker, so that edits made while the matrix runs do not leak into it
 TWINS = os.path.join(HERE, "twins")
 PROPS = [c["property_id"] for c in json.load(open(os.path.join(HERE, "MANIFEST.json")))["checks"]]
@@ -15,7 +16,7 @@ def run_one(name: str):
     tmp = tempfile.mkdtemp(prefix="twinrun_")
     out = []
     try:
-        shutil.copytree("/repo/pyoda_time", os.path.join(tmp, "pyoda_time"), ignore=shutil.ignore_patterns("__pycache__"))
+        shutil.copytree(BASE, os.path.join(tmp, "pyoda_time"), ignore=shutil.ignore_patterns("__pycache__"))
         r = subprocess.run(["patch", "-p1", "-s", "--no-backup-if-mismatch", "-i", os.path.join(d, "patch.diff")], cwd=tmp, capture_output=True, text=True)
         if r.returncode != 0:
             return name, [("-", -1, "patch does not apply")]
@@ -40,15 +41,17 @@ def _snapshot() -> str:
 
 
 def main():
-    global SNAP
+    global SNAP, BASE
     SNAP = _snapshot()
+    shutil.copytree(BASE, os.path.join(SNAP, "base_pkg"), ignore=shutil.ignore_patterns("__pycache__"))
+    BASE = os.path.join(SNAP, "base_pkg")
     import atexit
     atexit.register(shutil.rmtree, SNAP, True)
     names = sorted(n for n in os.listdir(TWINS) if os.path.isdir(os.path.join(TWINS, n)))
     if len(sys.argv) > 1:
         names = [n for n in names if n in sys.argv[1:]]
     bad = 0
-    with cf.ThreadPoolExecutor(max_workers=10) as ex:
+    with cf.ThreadPoolExecutor(max_workers=8) as ex:
         for name, out in ex.map(run_one, names):
             if not out:
                 print(f"{name:12s} silent on all {len(PROPS)} properties")
